@@ -9,7 +9,9 @@ import (
 	"golang.org/x/tools/go/ssa"
 )
 
-func init() { register("C18", "the command-line tool reports exactly what the library computes", checkC18) }
+func init() {
+	register("C18", "the command-line tool reports exactly what the library computes", checkC18)
+}
 
 func checkC18(p *Program, r *Report) {
 	r.Explain("C18: output bytes and process exit are runtime facts; the mapping from the library's verdict to the exit code is structural and decided on the SSA of package main. " +
